@@ -186,7 +186,7 @@ TFresh == /\ IsEvent("fresh")
 \* and whether it succeeds when funds are neither clearly sufficient nor clearly insufficient, is its
 \* business; what it picks must be eligible, distinct, and balance exactly.
 Locked(n, target)    == n \in DOMAIN locks /\ locks[n][2] >= target          \* data_api/locking.rs "Locked"
-Acquirable(n, owner) == n \notin DOMAIN locks \/ locks[n][2] <= tip \/ locks[n][1] = owner
+Acquirable(n, owner) == IF n \in DOMAIN locks THEN (locks[n][2] <= tip \/ locks[n][1] = owner) ELSE TRUE
 SumSeq(sq) == FoldSet(LAMBDA i, acc : acc + sq[i], 0, DOMAIN sq)
 Eligible(n, v, target, anchor, minconf, admitted) ==
     /\ n \in known /\ ninfo[n].v = v
@@ -194,14 +194,18 @@ Eligible(n, v, target, anchor, minconf, admitted) ==
     /\ txs[ninfo[n].t].mined # -1 /\ txs[ninfo[n].t].mined <= anchor          \* mined, at or below the anchor
     /\ target - txs[ninfo[n].t].mined >= minconf                               \* confirmations (the weaker of the two counts)
     /\ Counted(n, target)                                                       \* unexpired and unspent
-    /\ (~Locked(n, target) \/ locks[n][1] \in admitted)                         \* not locked by an owner the policy does not admit
+    /\ (IF Locked(n, target) THEN locks[n][1] \in admitted ELSE TRUE)          \* not locked by an owner the policy does not admit
 ProposalOK(r) ==
     LET p == r.p
         target == tip + 1
         ins == UNION { { << p.steps[i].inputs[j][1], p.steps[i].inputs[j][2] >> : j \in DOMAIN p.steps[i].inputs } : i \in DOMAIN p.steps }
         nin == FoldSet(LAMBDA i, acc : acc + Len(p.steps[i].inputs), 0, DOMAIN p.steps)
         minconf == Min2(r.trusted, r.untrusted)
-    IN  /\ p.target = target /\ Len(p.steps) >= 1
+    IN  /\ locks' = IF r.lock[1] >= 0
+                     THEN [n \in DOMAIN locks \cup { x[1] : x \in ins } |->
+                              IF n \in { x[1] : x \in ins } THEN << r.lock[1], target + r.lock[2] >> ELSE locks[n]]
+                     ELSE locks
+        /\ p.target = target /\ Len(p.steps) >= 1
         /\ Cardinality({ x[1] : x \in ins }) = nin                               \* no note twice, within or across steps
         /\ \A i \in DOMAIN p.steps :
               LET st == p.steps[i]
@@ -210,10 +214,6 @@ ProposalOK(r) ==
                   /\ st.in_total = SumSeq([j \in DOMAIN st.inputs |-> st.inputs[j][2]])
                   /\ st.tin = 0 /\ st.prior = 0 => st.in_total = st.pay + SumSeq(st.change) + st.fee     \* balances exactly
         /\ p.steps[1].pay = r.amount
-        /\ locks' = IF r.lock[1] >= 0
-                     THEN [n \in DOMAIN locks \cup { x[1] : x \in ins } |->
-                              IF n \in { x[1] : x \in ins } THEN << r.lock[1], target + r.lock[2] >> ELSE locks[n]]
-                     ELSE locks
 TPropose == /\ IsEvent("propose")
             /\ \/ Rec[l].res = "ok" /\ ProposalOK(Rec[l])
                \/ /\ Rec[l].res = "inputs-locked"       \* only a policy that spends through another owner's lock can lose the race
